@@ -158,6 +158,11 @@ class ScenarioCheck:
                 if fn.endswith(".scn"):
                     corpus.append(open(os.path.join(cdir, fn)).read())
         scns = corpus + self.gen(seed, tier)
+        if os.environ.get("VERIF_DUMP_SCN"):
+            # tools/coverage.py: only collect the scenarios this tier would run
+            with open(os.path.join(os.environ["VERIF_DUMP_SCN"], prop + ".scn"), "w") as f:
+                f.write("\n".join(scns))
+            return 0
         # unique ids
         seen = {}
         for k, s in enumerate(scns):
